@@ -67,5 +67,6 @@ func init() {
 	register("PANt", "temporary", nil, func(p *Prog, r *Report) {
 		rulePanicAssert(p, r, p.FuncList)
 		rulePanicIdx(p, r, "mxj", ".", nil)
+		rulePanicNil(p, r, p.PkgFuncs("mxj"))
 	})
 }
